@@ -74,7 +74,9 @@ impl Out {
 }
 
 impl<'t, 'a> Compiler<'t, 'a> {
-    fn fresh_label(&mut self) -> u16 {
+    /// a fresh unique label NAME; every use (label, goto, branch) interns the name anew, so
+    /// the same name may sit in several constant-pool slots (jumps are by name, not by slot)
+    fn fresh_label(&mut self) -> String {
         loop {
             self.label_seq += 1;
             let w = LABEL_WORDS[self.t.pick(LABEL_WORDS.len())];
@@ -85,11 +87,13 @@ impl<'t, 'a> Compiler<'t, 'a> {
             };
             if !self.label_names.contains(&name) {
                 self.label_names.push(name.clone());
-                // label names never reuse an existing constant entry that a different
-                // label also uses: names are unique, so sharing with identifiers is fine
-                return self.pool.str(&name, self.t);
+                return name;
             }
         }
+    }
+
+    fn l(&mut self, name: &str) -> u16 {
+        self.pool.str(name, self.t)
     }
 
     fn new_slot(&mut self, f: &mut FrameC) -> u16 {
@@ -195,29 +199,29 @@ impl<'t, 'a> Compiler<'t, 'a> {
                 let l_end = self.fresh_label();
                 if self.t.flag() {
                     // FML-like: branch THEN; else; goto END; THEN: then; END:
-                    o.e(Ins::Branch(l_then));
+                    o.e(Ins::Branch(self.l(&l_then)));
                     match el {
                         Some(x) => self.expr(x, f, o),
                         None => self.lit(Const::Null, o),
                     }
-                    o.e(Ins::Goto(l_end));
-                    o.e(Ins::Label(l_then));
+                    o.e(Ins::Goto(self.l(&l_end)));
+                    o.e(Ins::Label(self.l(&l_then)));
                     self.expr(th, f, o);
-                    o.e(Ins::Label(l_end));
+                    o.e(Ins::Label(self.l(&l_end)));
                 } else {
                     // branch THEN; goto ELSE; THEN: then; goto END; ELSE: else; END:
                     let l_else = self.fresh_label();
-                    o.e(Ins::Branch(l_then));
-                    o.e(Ins::Goto(l_else));
-                    o.e(Ins::Label(l_then));
+                    o.e(Ins::Branch(self.l(&l_then)));
+                    o.e(Ins::Goto(self.l(&l_else)));
+                    o.e(Ins::Label(self.l(&l_then)));
                     self.expr(th, f, o);
-                    o.e(Ins::Goto(l_end));
-                    o.e(Ins::Label(l_else));
+                    o.e(Ins::Goto(self.l(&l_end)));
+                    o.e(Ins::Label(self.l(&l_else)));
                     match el {
                         Some(x) => self.expr(x, f, o),
                         None => self.lit(Const::Null, o),
                     }
-                    o.e(Ins::Label(l_end));
+                    o.e(Ins::Label(self.l(&l_end)));
                 }
             }
             E::While(c, b) => {
@@ -226,25 +230,25 @@ impl<'t, 'a> Compiler<'t, 'a> {
                 let l_end = self.fresh_label();
                 if self.t.flag() {
                     // test at top
-                    o.e(Ins::Label(l_top));
+                    o.e(Ins::Label(self.l(&l_top)));
                     self.expr(c, f, o);
-                    o.e(Ins::Branch(l_body));
-                    o.e(Ins::Goto(l_end));
-                    o.e(Ins::Label(l_body));
+                    o.e(Ins::Branch(self.l(&l_body)));
+                    o.e(Ins::Goto(self.l(&l_end)));
+                    o.e(Ins::Label(self.l(&l_body)));
                     self.expr(b, f, o);
                     o.e(Ins::Drop);
-                    o.e(Ins::Goto(l_top));
-                    o.e(Ins::Label(l_end));
+                    o.e(Ins::Goto(self.l(&l_top)));
+                    o.e(Ins::Label(self.l(&l_end)));
                 } else {
                     // test at bottom (FML-like)
-                    o.e(Ins::Goto(l_top));
-                    o.e(Ins::Label(l_body));
+                    o.e(Ins::Goto(self.l(&l_top)));
+                    o.e(Ins::Label(self.l(&l_body)));
                     self.expr(b, f, o);
                     o.e(Ins::Drop);
-                    o.e(Ins::Label(l_top));
+                    o.e(Ins::Label(self.l(&l_top)));
                     self.expr(c, f, o);
-                    o.e(Ins::Branch(l_body));
-                    o.e(Ins::Label(l_end));
+                    o.e(Ins::Branch(self.l(&l_body)));
+                    o.e(Ins::Label(self.l(&l_end)));
                 }
                 self.lit(Const::Null, o);
             }
@@ -274,13 +278,13 @@ impl<'t, 'a> Compiler<'t, 'a> {
                     let lt = self.pool.str(if self.t.flag() { "<" } else { "lt" }, self.t);
                     let add = self.pool.str(if self.t.flag() { "+" } else { "add" }, self.t);
                     let set = self.pool.str("set", self.t);
-                    o.e(Ins::Label(l_top));
+                    o.e(Ins::Label(self.l(&l_top)));
                     o.e(Ins::GetLocal(s_i));
                     o.e(Ins::GetLocal(s_size));
                     o.e(Ins::CallSlot(lt, 2));
-                    o.e(Ins::Branch(l_body));
-                    o.e(Ins::Goto(l_end));
-                    o.e(Ins::Label(l_body));
+                    o.e(Ins::Branch(self.l(&l_body)));
+                    o.e(Ins::Goto(self.l(&l_end)));
+                    o.e(Ins::Label(self.l(&l_body)));
                     o.e(Ins::GetLocal(s_arr));
                     o.e(Ins::GetLocal(s_i));
                     // the initializer may contain `let`s: they live in the enclosing scope
@@ -292,8 +296,8 @@ impl<'t, 'a> Compiler<'t, 'a> {
                     o.e(Ins::CallSlot(add, 2));
                     o.e(Ins::SetLocal(s_i));
                     o.e(Ins::Drop);
-                    o.e(Ins::Goto(l_top));
-                    o.e(Ins::Label(l_end));
+                    o.e(Ins::Goto(self.l(&l_top)));
+                    o.e(Ins::Label(self.l(&l_end)));
                     o.e(Ins::GetLocal(s_arr));
                 }
             }
